@@ -395,6 +395,8 @@ def install_helpers(reg):
     reg.models[enc.scrypt_hash] = m_scrypt_hash
     reg.models[unicodedata.normalize] = m_normalize
     reg.helper_models = {'to_bytes': (enc.to_bytes, m_to_bytes), 'base58encode': (enc.base58encode, m_base58encode)}
+    reg.address_models = {'pubkeyhash_to_addr': (enc.pubkeyhash_to_addr, m_pubkeyhash_to_addr)}
+    reg.models[pow] = m_modpow
 
 
 # ---------------------------------------------------------------------------------------------------
@@ -442,3 +444,43 @@ def install_amounts(reg):
     reg.models[amount_text] = m_amount_text
     reg.sym_methods[SAmountText] = amount_method
     reg.sym_float[SDecimalNum] = lambda ip, v: floats.from_decimal(ip, v.num, v.k)
+
+
+def m_pubkeyhash_to_addr(ip, args, kwargs):
+    """encoding.pubkeyhash_to_addr(hash, prefix, encoding, witver): uninterpreted text function of its arguments.  Its parts are
+    under contract elsewhere (bech32 regrouping / checksum: C11 proofs; Base58Check: C11 bounded check)."""
+    import bitcoinlib.encoding as enc
+    from pyvc.values import is_concrete
+    if is_concrete(args) and is_concrete(kwargs):
+        return enc.pubkeyhash_to_addr(*args, **kwargs)
+    names = ['pubkeyhash', 'prefix', 'encoding', 'witver']
+    v = dict(zip(names, args))
+    v.update(kwargs)
+    prefix = v.get('prefix')
+    if isinstance(prefix, str):
+        prefix = prefix.encode()
+    enc_tag = {'base58': 58, 'bech32': 32}.get(v.get('encoding', 'base58'), 0)
+    a = [v['pubkeyhash'], prefix if prefix is not None else b'', enc_tag, v.get('witver', 0)]
+    app = uf(ip.ctx, 'address_text', a, IntSeq)
+    ln = uf(ip.ctx, 'address_text.len', a, z3.IntSort())
+    ip.ctx.fact(ln >= 0)
+    return SStr(seq=SeqPart(app, ln))
+
+
+def m_modpow(ip, args, kwargs):
+    """pow(a, e, m) with symbolic base: uninterpreted; result in [0, m)"""
+    from pyvc.values import is_concrete
+    if is_concrete(args):
+        return pow(*args)
+    if len(args) == 3 and isinstance(args[1], int) and isinstance(args[2], int):
+        # pow(a, e, m) == pow(a mod m, e, m): the base is reduced first so that equal residues give the same term
+        base = z3.simplify(int_term(args[0]))
+        if not (z3.is_app_of(base, z3.Z3_OP_MOD) and z3.is_int_value(base.arg(1)) and base.arg(1).as_long() == args[2]):
+            iv = ops.interval(ip.ctx, base)
+            if iv is None or iv[0] < 0 or iv[1] >= args[2]:
+                base = base % args[2]
+        r = uf(ip.ctx, 'modpow_%d_%d' % (args[1] % 10 ** 9, args[2] % 10 ** 9), [wrap_int(base)], z3.IntSort())
+        ip.ctx.fact(z3.And(r >= 0, r < args[2]))
+        ip.ctx.var_bounds[str(r)] = (0, args[2] - 1)
+        return wrap_int(r)
+    raise Unsupported('pow with symbolic exponent or modulus')
